@@ -205,7 +205,14 @@ impl AsRef<Sm2PublicKey> for Sm2PrivateKey {
 
 impl Sm2PrivateKey {
     pub fn new(sk: &[u8]) -> Sm2Result<Self> {
+        if sk.len() != 32 {
+            return Err(Sm2Error::InvalidPrivate);
+        }
         let d = u256_from_be_bytes(sk);
+        // a private key lies in [1, n-2]: 0 has no public key and n-1 makes (1 + d) non-invertible
+        if d.is_zero() || u256_cmp(&d, &SM2_N_MINUS_TWO) > 0 {
+            return Err(Sm2Error::InvalidPrivate);
+        }
         let public_key = public_from_private(&d)?;
         let private_key = Self { d, public_key };
         Ok(private_key)
